@@ -27,7 +27,7 @@ type Config struct {
 
 func DefaultConfig() Config {
 	return Config{MaxDepth: 4, MaxFields: 7, Oneofs: true, Containers: true, Refs: true, Imports: true,
-		Services: true, Topics: true, PFiles: true, AncestorNames: 1, MaxPackages: 3, MaxFiles: 3}
+		Services: true, Topics: true, PFiles: true, AncestorNames: 2, MaxPackages: 3, MaxFiles: 3}
 }
 
 type typeEntry struct {
@@ -147,6 +147,19 @@ func enumValueNames(name string, e *Enum) []string {
 
 var optWords = []string{"ACTIVE", "INACTIVE", "A", "B", "PENDING", "DONE", "X1", "OLD_VALUE", "NEW", "FAILED", "OK", "HTTP_2"}
 
+// optionName draws an enum option name; except in first position also names that end in
+// UNSPECIFIED (only the first option may stand for the zero value).
+func (g *Gen) optionName(first bool) string {
+	o := vh.Pick(g.R, optWords)
+	if g.R.Chance(20) {
+		o += fmt.Sprint(g.R.Intn(5))
+	}
+	if !first && g.R.Chance(12) {
+		o += "_UNSPECIFIED"
+	}
+	return o
+}
+
 func (g *Gen) enum(name string) *Enum {
 	e := &Enum{Name: name}
 	if g.R.Chance(20) {
@@ -159,10 +172,7 @@ func (g *Gen) enum(name string) *Enum {
 		seen["UNSPECIFIED"] = true
 	}
 	for len(e.Opts) < n {
-		o := vh.Pick(g.R, optWords)
-		if g.R.Chance(20) {
-			o += fmt.Sprint(g.R.Intn(5))
-		}
+		o := g.optionName(len(e.Opts) == 0)
 		if seen[o] {
 			continue
 		}
@@ -420,6 +430,11 @@ func (g *Gen) inlineName(sc *scope, pname string) (name, override string, ok boo
 		override = vh.Pick(g.R, sc.path)
 		name = override
 		g.Stats["inline_named_like_ancestor"]++
+	} else if g.R.Chance(g.Cfg.AncestorNames) && g.cur != nil && len(g.cur.types) > 0 {
+		// named like a top-level declaration of the package (which other fields may refer to)
+		override = vh.Pick(g.R, g.cur.types).name
+		name = override
+		g.Stats["inline_named_like_toplevel"]++
 	} else if g.R.Chance(25) {
 		override = g.rawTypeName()
 		name = override
@@ -549,8 +564,14 @@ func (g *Gen) service() *Service {
 		}
 	}
 	s := &Service{Name: name}
+	shared := "" // request field named by a parameter of the base path
 	if g.R.Chance(70) {
 		base := vh.Pick(g.R, []string{"/foo/v1", "/foo/v1/", "/" + strings.ToLower(name), "/a/b/c", "/", "/x//y", "/v1/./z", "rel/base"})
+		if g.R.Chance(35) {
+			shared = vh.Pick(g.R, []string{"tenantId", "accountID", "org_id", "fooBarId", "x1"})
+			base = vh.Pick(g.R, []string{"/local/v1/tenant/:" + shared + "/foo", "/:" + shared, "/v1/:" + shared + "/", "t/:" + shared + "/x"})
+			g.Stats["base_path_param"]++
+		}
 		s.Base = &base
 	}
 	for i := g.R.Range(1, 3); i > 0; i-- {
@@ -564,7 +585,13 @@ func (g *Gen) service() *Service {
 			}
 		}
 		m := &Method{Name: mn, Verb: vh.Pick(g.R, verbs)}
-		m.Request = g.propsFor([]string{mn + "Request"}, 1, false, g.R.Range(0, 5))
+		rsc := newScope([]string{mn + "Request"})
+		if shared != "" {
+			rsc.fields[normKey(strcase.ToSnake(shared))] = true
+			rsc.fields[normKey(shared)] = true
+			m.Request = append(m.Request, &Property{Name: shared, F: &Field{Kind: "scalar", Scalar: &Scalar{Kind: vh.Pick(g.R, []string{"string", "key"})}}})
+		}
+		m.Request = append(m.Request, g.props(rsc, 1, false, g.R.Range(0, 5))...)
 		if g.R.Chance(85) {
 			m.HasResp = true
 			m.Response = g.propsFor([]string{mn + "Response"}, 1, false, g.R.Range(0, 4))
